@@ -1,30 +1,55 @@
 /-
-Driver for stream `dbft` (C19): trace validation. The harness runs real consensus.Service instances and
-prints what happened, one line per event / per thing a node did; this driver replays the lines on the
-protocol model `NeoModel.Dbft` and checks that every payload a node emitted and every local transition it
-made is an ENABLED step of the model in the state reached by the preceding lines (then takes the step).
+Driver for stream `dbft` (C19). Two checks run side by side on the trace of the real consensus services:
+
+(1) trace validation against the guarded-command model `NeoModel.Dbft` (every payload a node emits and
+    every local transition it makes is an ENABLED step of the model), as before;
+(2) the deterministic machine `NeoModel.Dbft.Mach`: for every event handed to a real service the machine
+    computes the node's reaction; the sequence of things the real service then does (payloads broadcast,
+    timer resets and extensions with their durations, transaction requests, the block handed to the
+    ledger and the ledger's verdict) must be EXACTLY the predicted sequence, and the real dBFT context
+    after the event must equal the machine's state (`obs` line: the driver prints the machine's state, the
+    harness the real one, the check diffs them).
 
   case <k>                       -> case <k>           (reset)
-  init <n>                       -> ok                 (n validators, everybody at height 1 view 0)
-  start <i> | tx <i> | timeout <i> <h> <v>             -> ok   (no model guard: anything may time out)
-  deliver <to> <payload>         -> ok | bad …         (the payload must have been broadcast before)
-  emit <i> <payload>             -> ok | bad …         (the matching send step must be enabled at i)
-  view <i> <h> <v>               -> ok | bad …         (timer reset: same (h,v) or an older height = nothing; v larger = changeView)
-  accept <i> <h> <bN>            -> ok | bad …         (checkCommit → processBlock)
-  block <i> <h> <bN>             -> ok | bad …         (block relay: some ledger must hold it)
-  st <i>                         -> <height> <view>    (compared with the service's timer height/view)
+  init <n> <tpb> <maxTx> <maxSize> <maxSysFee> <sr> <baseV> <baseP> <gts>   -> ok
+  txinfo tK <sysfee> <size>      -> ok
+  mp <i> <t,…|->                 -> ok                 (node i's verified pool, in GetVerifiedTransactions order)
+  prop <N> <h> <v> <from> <ts> <prev> <sroot> <ver> <k> t…  -> ok   (what PrepareRequest pN carries)
+  start <i> | deliver <to> <payload> | timeout <i> <h> <v> | tx <i> tK | block <i> <h> <bN>
+                                 -> ok | bad …         (the event; (1) checks it, (2) remembers it)
+  forge <to> <payload>           -> ok                 (a PrepareRequest crafted by the harness: (2) only)
+  hint <i> <now> <fresh> <k> s…  -> ok                 ((2) computes the reaction: clock, the name of a proposal
+                                                        made now, senders of dBFT's OnReceive calls in order)
+  emit <i> <payload> | view <i> <h> <v> <dur> | ext <i> <d> | rtx <i> <t,…> | stx <i>
+  accept <i> <h> <bN> ok|dup|rej -> ok | bad …         (next predicted action of (2); (1) as before)
+  st <i>                         -> <height> <view>
+  obs <i>                        -> the machine's state | bad … (predicted actions the service did not take)
 
-payload ::= PR f h v pN bM | PS f h v pN | CM f h v bM | CV f h v nv | RR f h v
-          | RM f h v k item…   with item ::= PR f h v pN | PS f h v pN | CM f h v bM | CV f h v nv
+payload ::= PR f h v pN bM | PS f h v pN | CM f h v bM | CV f h v nv r | RR f h v
+          | RM f h v k item… # ncv (vi ov)* R<pN|-> H<pN|-> np idx* ncm (view vi bN)*
 -/
 import NeoModel.Base.Proto
 import NeoModel.Model.Dbft
+import NeoModel.Model.DbftMach
 open NeoModel NeoModel.Dbft
 
 structure D where
   c : Cfg := { n := 4 }
   s : State := init
   blocks : List (String × Block) := []
+  -- the machines
+  e : Mach.Env := { n := 4 }
+  props : List (Nat × Mach.PropInfo) := []
+  txi : List (Nat × Mach.TxInfo) := []
+  ms : Array Mach.Node := #[]
+  gts : Nat := 0
+  pend : Option (Nat × Mach.Event) := none
+  exp : List Mach.Out := []
+  expNode : Nat := 0
+  expBad : String := ""
+  /-- validators that were handed a crafted payload: what they do afterwards is outside the
+      guarded-command model (no Byzantine validator there); only the machine check applies to them -/
+  tainted : List Nat := []
 
 /-- keep the node map a flat array lookup (the model's `upd` builds a closure chain) -/
 def normalize (c : Cfg) (s : State) : State :=
@@ -34,7 +59,18 @@ def normalize (c : Cfg) (s : State) : State :=
 def pnum (w : String) : Option Nat :=
   if w.startsWith "p" then (w.drop 1).toNat? else none
 
+def tnum (w : String) : Option Nat :=
+  if w.startsWith "t" then (w.drop 1).toNat? else none
+
+def tlist (w : String) : List Nat :=
+  if w == "-" then [] else (w.splitOn ",").filterMap tnum
+
 def lookupB (d : D) (w : String) : Option Block := (d.blocks.find? (fun e => e.1 == w)).map (·.2)
+
+def D.env (d : D) : Mach.Env :=
+  let props := d.props
+  let txi := d.txi
+  { d.e with prop := fun p => (props.lookup p).getD {}, tx := fun t => (txi.lookup t).getD {} }
 
 /-- parse one item off the front of a word list -/
 def parseItem (d : D) : List String → Option (Item × List String)
@@ -48,7 +84,7 @@ def parseItem (d : D) : List String → Option (Item × List String)
       let f ← f.toNat?; let _ ← h.toNat?
       let b ← lookupB d b
       some (.commit f b, rest)
-  | "CV" :: f :: h :: v :: nv :: rest => do
+  | "CV" :: f :: h :: v :: nv :: _ :: rest => do
       let f ← f.toNat?; let h ← h.toNat?; let v ← v.toNat?; let nv ← nv.toNat?
       some (.changeView f h v nv, rest)
   | _ => none
@@ -61,7 +97,55 @@ def parseItems (d : D) : Nat → List String → Option (List Item)
       let its ← parseItems d k rest
       some (it :: its)
 
-/-- a top-level payload; a PrepareRequest also names its block -/
+def takeN (k : Nat) (ws : List String) : Option (List String × List String) :=
+  if ws.length < k then none else some (ws.take k, ws.drop k)
+
+def pairs : List String → Option (List (Nat × Nat))
+  | [] => some []
+  | a :: b :: rest => do
+      let a ← a.toNat?; let b ← b.toNat?; let r ← pairs rest
+      some ((a, b) :: r)
+  | _ => none
+
+def triples (d : D) : List String → Option (List (Nat × Nat × Block))
+  | [] => some []
+  | a :: b :: c :: rest => do
+      let a ← a.toNat?; let b ← b.toNat?; let r ← triples d rest
+      some ((a, b, (lookupB d c).getD ⟨0, 0, 0⟩) :: r)
+  | _ => none
+
+def optP (w : String) : Option (Option Nat) :=
+  if w == "R-" || w == "H-" then some none else ((w.drop 2).toNat?).map some
+
+/-- the compact content of a RecoveryMessage: ncv (vi ov)* R<pN|-> H<pN|-> np idx* ncm (view vi bN)* -/
+def parseRec (d : D) (ws : List String) : Option Mach.Rec := do
+  match ws with
+  | ncv :: rest =>
+    let ncv ← ncv.toNat?
+    let (cvw, rest) ← takeN (2 * ncv) rest
+    let cvs ← pairs cvw
+    match rest with
+    | r :: hh :: np :: rest =>
+      let req ← optP r
+      let ph ← optP hh
+      let np ← np.toNat?
+      let (pw, rest) ← takeN np rest
+      let preps := pw.filterMap String.toNat?
+      match rest with
+      | ncm :: rest =>
+        let ncm ← ncm.toNat?
+        let (cw, rest) ← takeN (3 * ncm) rest
+        if !rest.isEmpty then none
+        let commits ← triples d cw
+        some { cvs := cvs, req := req, ph := ph, preps := preps, commits := commits }
+      | _ => none
+    | _ => none
+  | _ => none
+
+def splitHash (ws : List String) : List String × List String :=
+  (ws.takeWhile (· != "#"), (ws.dropWhile (· != "#")).drop 1)
+
+/-- a top-level payload for the guarded-command model; a PrepareRequest also names its block -/
 def parseMsg (d : D) : List String → Option (D × Msg × Nat × Nat × Nat)
   | ["PR", f, h, v, p, b] => do
       let f ← f.toNat?; let h ← h.toNat?; let v ← v.toNat?; let p ← pnum p
@@ -78,7 +162,7 @@ def parseMsg (d : D) : List String → Option (D × Msg × Nat × Nat × Nat)
       some (d, .recReq f h v, f, h, v)
   | "RM" :: f :: h :: v :: k :: rest => do
       let f ← f.toNat?; let h ← h.toNat?; let v ← v.toNat?; let k ← k.toNat?
-      let its ← parseItems d k rest
+      let its ← parseItems d k (splitHash rest).1
       some (d, .recMsg f h v its, f, h, v)
   | ws => do
       let (it, rest) ← parseItem d ws
@@ -88,6 +172,29 @@ def parseMsg (d : D) : List String → Option (D × Msg × Nat × Nat × Nat)
           let f ← f.toNat?; let h ← h.toNat?; let v ← v.toNat?
           some (d, .item it, f, h, v)
       | _ => none
+
+/-- the same payload for the machine -/
+def parsePl (d : D) : List String → Option Mach.Pl
+  | ["PR", f, h, v, p, _] => do
+      let f ← f.toNat?; let h ← h.toNat?; let v ← v.toNat?; let p ← pnum p
+      some (.prepReq ⟨f, h, v⟩ p)
+  | ["PS", f, h, v, p] => do
+      let f ← f.toNat?; let h ← h.toNat?; let v ← v.toNat?; let p ← pnum p
+      some (.prepResp ⟨f, h, v⟩ p)
+  | ["CM", f, h, v, b] => do
+      let f ← f.toNat?; let h ← h.toNat?; let v ← v.toNat?
+      some (.commit ⟨f, h, v⟩ ((lookupB d b).getD ⟨0, 0, 0⟩))
+  | ["CV", f, h, v, _, r] => do
+      let f ← f.toNat?; let h ← h.toNat?; let v ← v.toNat?; let r ← r.toNat?
+      some (.cv ⟨f, h, v⟩ r)
+  | ["RR", f, h, v] => do
+      let f ← f.toNat?; let h ← h.toNat?; let v ← v.toNat?
+      some (.recReq ⟨f, h, v⟩)
+  | "RM" :: f :: h :: v :: _ :: rest => do
+      let f ← f.toNat?; let h ← h.toNat?; let v ← v.toNat?
+      let r ← parseRec d (splitHash rest).2
+      some (.recMsg ⟨f, h, v⟩ r)
+  | _ => none
 
 def take (d : D) (a : Action) : D := { d with s := normalize d.c (apply d.c d.s a) }
 
@@ -132,51 +239,218 @@ def onEmit (d : D) (i : Nat) (ws : List String) : D × String :=
           try_ d (.sendRecMsg i its) ("emit RM not enabled: relays a payload the node never held " ++ describe d i)
         else (d, "bad emit RM: height/view " ++ describe d i)
 
+/-! ### the machine side -/
+
+def showT (l : List Nat) : String := if l.isEmpty then "-" else ",".intercalate (l.map fun t => s!"t{t}")
+
+def showPrep : Option Mach.Pl → String
+  | none => "-"
+  | some (.prepReq _ p) => s!"R{p}"
+  | some (.prepResp _ p) => s!"S{p}"
+  | some _ => "?"
+
+def showCommit : Option Mach.Pl → String
+  | none => "-"
+  | some (.commit x b) => if b.h == 0 then s!"{x.v}:?" else s!"{x.v}:{b.v}.{b.p}"
+  | some _ => "?"
+
+def showCV : Option Mach.Pl → String
+  | some (.cv x r) => s!"{x.v}r{r}"
+  | none => "-"
+  | some _ => "?"
+
+def showLS : Option (Nat × Nat) → String
+  | none => "-"
+  | some (h, v) => s!"{h}.{v}"
+
+def commas {α : Type} (f : α → String) (l : List α) : String := ",".intercalate (l.map f)
+
+def insertBy {α : Type} (k : α → Nat) (x : α) : List α → List α
+  | [] => [x]
+  | y :: ys => if k x ≤ k y then x :: y :: ys else y :: insertBy k x ys
+
+def sortBy {α : Type} (k : α → Nat) (l : List α) : List α := l.foldl (fun acc x => insertBy k x acc) []
+
+def showCache (c : List (Nat × Mach.Inbox)) : String :=
+  if c.isEmpty then "-" else
+  "|".intercalate ((sortBy (·.1) c).map fun (h, b) =>
+    let grp (tag : String) (body : Option Mach.Pl → String) (g : List (Nat × Mach.Pl)) : String :=
+      tag ++ "+".intercalate ((sortBy (·.1) g).map fun (k, m) => s!"{k}@{m.hd.v}{body (some m)}")
+    s!"{h}:" ++ grp "P" showPrep b.prepare ++ ";" ++ grp "V" (fun _ => "") b.chViews ++ ";" ++ grp "C" showCommit b.commit)
+
+def showNode (nd : Mach.Node) : String :=
+  s!"h={nd.bi} v={nd.view} p={nd.pidx} bs={if nd.blockProcessed then 1 else 0}" ++
+  s!" prep={commas showPrep nd.prep} cm={commas showCommit nd.commit} cv={commas showCV nd.cv} lcv={commas showCV nd.lastCv}" ++
+  s!" ls={commas showLS nd.lastSeen} th={showT nd.txHashes} ms={showT nd.missing} tx={nd.txs.length}" ++
+  s!" tm={nd.timer.h}/{nd.timer.v}/{nd.timer.dur}/{if nd.timer.armed then 1 else 0}" ++
+  s!" ch={nd.chain.length} lts={nd.lastTs} lp={showT nd.lastProposal} cache={showCache nd.cache}"
+
+def showPl : Mach.Pl → String
+  | .cv x r => s!"CV {x.frm} {x.h} {x.v} r{r}"
+  | .prepReq x p => s!"PR {x.frm} {x.h} {x.v} p{p}"
+  | .prepResp x p => s!"PS {x.frm} {x.h} {x.v} p{p}"
+  | .commit x b => s!"CM {x.frm} {x.h} {x.v} signs({b.h},{b.v},p{b.p})"
+  | .recReq x => s!"RR {x.frm} {x.h} {x.v}"
+  | .recMsg x r => s!"RM {x.frm} {x.h} {x.v} cvs={r.cvs} req={r.req} ph={r.ph} preps={r.preps} commits={r.commits.map fun c => (c.1, c.2.1, c.2.2.v, c.2.2.p)}"
+
+def showOut : Mach.Out → String
+  | .bcast p => "emit " ++ showPl p
+  | .proposal i => s!"proposal ts={i.ts} txs={i.txs}"
+  | .timer h v d => s!"view {h} {v} {d}"
+  | .extend d => s!"ext {d}"
+  | .reqTx ts => s!"rtx {showT ts}"
+  | .stopTx => "stx"
+  | .block b sigs => s!"accept ({b.h},{b.v},p{b.p}) sigs={sigs}"
+
+/-- match the next predicted action of node i -/
+def expect (d : D) (i : Nat) (what : String) (ok : Mach.Out → Bool) : D × String :=
+  if d.expBad != "" then (d, "bad " ++ d.expBad)
+  else if d.expNode != i then (d, s!"bad machine: action of node {i} outside its event")
+  else match d.exp with
+    | [] => (d, s!"bad machine: predicted nothing more, the service did: {what}")
+    | o :: rest =>
+      if ok o then ({ d with exp := rest }, "ok")
+      else ({ d with exp := rest }, s!"bad machine: predicted [{showOut o}], the service did: {what}")
+
+/-- both answers in one -/
+def both (a : D × String) (f : D → D × String) : D × String :=
+  let (d, r1) := a
+  let (d, r2) := f d
+  (d, if r1 == "ok" then r2 else if r2 == "ok" then r1 else r1 ++ " ; " ++ r2)
+
+def setPend (d : D) (i : Nat) (ev : Mach.Event) : D := { d with pend := some (i, ev) }
+
+def onHint (d : D) (i now fresh : Nat) (hints : List Nat) : D × String :=
+  match d.pend with
+  | none => (d, "bad hint: no event")
+  | some (j, ev) =>
+    if j != i then (d, "bad hint: node")
+    else
+      let e := d.env
+      let nd := d.ms.getD i {}
+      let (nd', outs, oof) := Mach.step e nd ev now fresh hints d.gts
+      -- the content of a proposal made now is checked against what the real PrepareRequest carries
+      let bad := outs.foldl (fun acc o => match o with
+        | .proposal info =>
+          let real := e.prop fresh
+          if real == info then acc
+          else s!"machine: proposal content: predicted h={info.h} v={info.v} ts={info.ts} txs={info.txs} prev={info.prev} sroot={info.sroot}, the PrepareRequest carries h={real.h} v={real.v} ts={real.ts} txs={real.txs} prev={real.prev} sroot={real.sroot} ver={real.ver}"
+        | _ => acc) (if oof then "machine: recursion bound hit" else "")
+      let outs := outs.filter fun o => match o with | .proposal _ => false | _ => true
+      ({ d with ms := d.ms.setIfInBounds i nd', pend := none, exp := outs, expNode := i, expBad := bad },
+       if bad == "" then "ok" else "bad " ++ bad)
+
 def step (d : D) (ws : List String) : D × String :=
   match ws with
   | ["case", k] => ({}, s!"case {k}")
-  | ["init", n] =>
-    match n.toNat? with
-    | some n => ({ c := { n := n }, s := normalize { n := n } init }, "ok")
+  | ["init", n, tpb, maxTx, maxSize, maxFee, sr, baseV, baseP, gts] =>
+    match n.toNat?, tpb.toNat?, maxTx.toNat?, maxSize.toNat?, maxFee.toNat?, baseV.toNat?, baseP.toNat?, gts.toNat? with
+    | some n, some tpb, some maxTx, some maxSize, some maxFee, some baseV, some baseP, some gts =>
+      let e : Mach.Env := { n := n, tpb := tpb, maxTx := maxTx, maxSize := maxSize, maxSysFee := maxFee, sr := sr == "1",
+                            baseV := baseV, baseP := baseP }
+      ({ c := { n := n }, s := normalize { n := n } init, e := e, gts := gts,
+         ms := ((List.range n).map fun i => Mach.initNode e i).toArray }, "ok")
+    | _, _, _, _, _, _, _, _ => (d, "bad-op")
+  | ["txinfo", t, fee, size] =>
+    match tnum t, fee.toNat?, size.toNat? with
+    | some t, some fee, some size => ({ d with txi := (t, { sysFee := fee, size := size }) :: d.txi }, "ok")
+    | _, _, _ => (d, "bad-op")
+  | ["mp", i, l] =>
+    match i.toNat? with
+    | some i => ({ d with ms := d.ms.modify i fun nd => { nd with pool := tlist l } }, "ok")
     | none => (d, "bad-op")
-  | ["start", _] => (d, "ok")
-  | ["tx", _] => (d, "ok")
+  | "prop" :: p :: h :: v :: f :: ts :: prev :: sroot :: ver :: _ :: txs =>
+    match p.toNat?, h.toNat?, v.toNat?, f.toNat?, ts.toNat?, prev.toNat?, sroot.toNat?, ver.toNat? with
+    | some p, some h, some v, some f, some ts, some prev, some sroot, some ver =>
+      ({ d with props := (p, { h := h, v := v, frm := f, ts := ts, txs := txs.filterMap tnum, prev := prev, sroot := sroot, ver := ver }) :: d.props }, "ok")
+    | _, _, _, _, _, _, _, _ => (d, "bad-op")
+  | ["start", i] =>
+    match i.toNat? with
+    | some i => (setPend d i .start, "ok")
+    | none => (d, "bad-op")
+  | ["tx", i, t] =>
+    match i.toNat?, tnum t with
+    | some i, some t => (setPend d i (.tx t), "ok")
+    | _, _ => (d, "bad-op")
   | ["timeout", i, _, _] =>
     match i.toNat? with
-    | some i => try_ d (.timeout i) "timeout of a non-validator"
+    | some i => try_ (setPend d i .tick) (.timeout i) "timeout of a non-validator"
     | none => (d, "bad-op")
   | "deliver" :: to :: rest =>
     match to.toNat?, parseMsg d rest with
     | some to, some (d, m, _, _, _) =>
-      if Enabled d.c d.s (.dup to m) then (take (take d (.dup to m)) (.deliver to m), "ok")
-      else (d, "bad deliver: this payload was never broadcast to this node")
+      match parsePl d rest with
+      | none => (d, "bad deliver: unparsable payload (machine form)")
+      | some pl =>
+        let d := setPend d to (.recv pl)
+        if d.tainted.contains to || d.tainted.contains pl.hd.frm then (d, "ok")
+        else if Enabled d.c d.s (.dup to m) then (take (take d (.dup to m)) (.deliver to m), "ok")
+        else (d, "bad deliver: this payload was never broadcast to this node")
     | _, _ => (d, "bad deliver: unparsable payload")
+  -- a payload crafted by the harness (never broadcast by anybody): the guarded-command model has no
+  -- Byzantine validator and does not see it; the machine must react to it like the real service
+  | "forge" :: to :: rest =>
+    match to.toNat?, parseMsg d rest with
+    | some to, some (d, _, _, _, _) =>
+      match parsePl d rest with
+      | none => (d, "bad forge: unparsable payload (machine form)")
+      | some pl => ({ setPend d to (.recv pl) with tainted := to :: d.tainted }, "ok")
+    | _, _ => (d, "bad forge: unparsable payload")
+  | "hint" :: i :: now :: fresh :: _ :: hs =>
+    match i.toNat?, now.toNat?, fresh.toNat? with
+    | some i, some now, some fresh => onHint d i now fresh (hs.filterMap String.toNat?)
+    | _, _, _ => (d, "bad-op")
   | "emit" :: i :: rest =>
     match i.toNat? with
-    | some i => onEmit d i rest
+    | some i =>
+      both (if d.tainted.contains i then (d, "ok") else onEmit d i rest) fun d =>
+        match parsePl d rest with
+        | none => (d, "bad emit: unparsable payload (machine form)")
+        | some pl => expect d i ("emit " ++ showPl pl) fun o => o == .bcast pl
     | none => (d, "bad-op")
-  | ["view", i, h, v] =>
-    match i.toNat?, h.toNat?, v.toNat? with
-    | some i, some h, some v =>
+  | ["view", i, h, v, dur] =>
+    match i.toNat?, h.toNat?, v.toNat?, dur.toNat? with
+    | some i, some h, some v, some dur =>
       let nd := d.s.nodes i
-      if h == nd.height && v == nd.view then (d, "ok")
-      -- a height decided while cached payloads were replayed inside initializeConsensus: the timer
-      -- reset at the end of initializeConsensus (dbft.go:159) still carries the decided height
-      else if h < nd.height then (d, "ok")
-      else if h == nd.height && v > nd.view then
-        try_ d (.changeView i v) (s!"view change not enabled: asked {countP d.c.n (askedView nd.known nd.height v)} of M={d.c.m} " ++ describe d i)
-      else (d, "bad view: " ++ describe d i)
-    | _, _, _ => (d, "bad-op")
-  | ["accept", i, h, b] =>
+      let a : D × String :=
+        if d.tainted.contains i then (d, "ok")
+        else if h == nd.height && v == nd.view then (d, "ok")
+        -- a height decided while cached payloads were replayed inside initializeConsensus: the timer
+        -- reset at the end of initializeConsensus (dbft.go:159) still carries the decided height
+        else if h < nd.height then (d, "ok")
+        else if h == nd.height && v > nd.view then
+          try_ d (.changeView i v) (s!"view change not enabled: asked {countP d.c.n (askedView nd.known nd.height v)} of M={d.c.m} " ++ describe d i)
+        else (d, "bad view: " ++ describe d i)
+      both a fun d => expect d i s!"view {h} {v} {dur}" fun o => o == .timer h v dur
+    | _, _, _, _ => (d, "bad-op")
+  | ["ext", i, dur] =>
+    match i.toNat?, dur.toNat? with
+    | some i, some dur => expect d i s!"ext {dur}" fun o => o == .extend dur
+    | _, _ => (d, "bad-op")
+  | ["rtx", i, l] =>
+    match i.toNat? with
+    | some i => expect d i s!"rtx {l}" fun o => o == .reqTx (tlist l)
+    | none => (d, "bad-op")
+  | ["stx", i] =>
+    match i.toNat? with
+    | some i => expect d i "stx" fun o => o == .stopTx
+    | none => (d, "bad-op")
+  | ["accept", i, h, b, verdict] =>
     match i.toNat?, h.toNat?, lookupB d b with
     | some i, some h, some b =>
-      if b.h == h then
-        try_ d (.accept i b) (s!"accept not enabled: commits {countP d.c.n (committed (d.s.nodes i).known b)} of M={d.c.m} " ++ describe d i)
-      else (d, "bad accept: height")
+      let a : D × String :=
+        if verdict == "rej" || d.tainted.contains i then (d, "ok")     -- the ledger did not take it: nothing happens in the guarded-command model
+        else if b.h == h then
+          try_ d (.accept i b) (s!"accept not enabled: commits {countP d.c.n (committed (d.s.nodes i).known b)} of M={d.c.m} " ++ describe d i)
+        else (d, "bad accept: height")
+      both a fun d => expect d i s!"accept ({b.h},{b.v},p{b.p}) {verdict}" fun o => match o with
+        | .block b' sigs => b' == b && ((sigs.all (·.2) && sigs.length == d.e.m) == (verdict == "ok"))
+        | _ => false
     | _, _, _ => (d, "bad accept: unknown block")
   | ["block", i, h, b] =>
     match i.toNat?, h.toNat?, lookupB d b with
     | some i, some h, some b =>
+      let d := setPend d i (.block b)
       if (d.s.nodes i).height != h then (d, "bad block: " ++ describe d i)
       else match (List.range d.c.n).find? (fun j => blockAt (d.s.nodes j) h == some b) with
         | some j => try_ d (.syncBlock i j) "block relay not enabled"
@@ -185,6 +459,13 @@ def step (d : D) (ws : List String) : D × String :=
   | ["st", i] =>
     match i.toNat? with
     | some i => (d, s!"{(d.s.nodes i).height} {(d.s.nodes i).view}")
+    | none => (d, "bad-op")
+  | ["obs", i] =>
+    match i.toNat? with
+    | some i =>
+      if d.expNode == i && !d.exp.isEmpty then
+        ({ d with exp := [] }, "bad machine: predicted more: " ++ "; ".intercalate (d.exp.map showOut))
+      else (d, showNode (d.ms.getD i {}))
     | none => (d, "bad-op")
   | _ => (d, "bad-op")
 
